@@ -1,6 +1,6 @@
 (* C17 — property theorems.  Only statements, [exact lemma] and Print Assumptions. *)
 From Coq Require Import ZArith List Sorted.
-From FV Require Import C17.Model C17.Proofs C17.Closure C17.Idempotent.
+From FV Require Import C17.Model C17.Proofs C17.Closure C17.Idempotent C17.IndexMap.
 Import ListNotations.
 Open Scope Z_scope.
 
@@ -143,6 +143,33 @@ Theorem c17_subset_idempotent : forall F gids unis notdef gl long' lsbs' cm,
   K' = zrange (f_n F') /\ forall i, 0 <= i < f_n F' -> glyph_map false K' i = Some i.
 Proof. exact subset_idempotent_l. Qed.
 
+(* HVAR / VVAR DeltaSetIndexMap repacking (klippa hvar.rs IndexMapSubsetPlan::remap + variations.rs
+   DeltaSetIndexMap::subset): an entry survives pack -> unpack whenever its inner index fits the inner bit count *)
+Theorem c17_indexmap_pack_roundtrip : forall ibc o i, 0 <= ibc -> 0 <= o -> 0 <= i < 2 ^ ibc ->
+  im_unpack ibc (im_pack ibc o i) = (o, i).
+Proof. exact indexmap_pack_roundtrip_l. Qed.
+(* ... the truncation to the entry width does not touch it when the outer index fits the remaining bits *)
+Theorem c17_indexmap_pack_fits_width : forall ibc w o i, 0 <= ibc -> 0 <= o -> 0 <= i < 2 ^ ibc ->
+  ibc <= 8 * w -> o < 2 ^ (8 * w - ibc) ->
+  Z.land (im_pack ibc o i) (2 ^ (8 * w) - 1) = im_pack ibc o i.
+Proof. exact pack_fits_width. Qed.
+(* ... the inner bit count the plan computes (maximum over ALL ItemVariationData subtables, at least 1) covers
+   the new index of the largest old inner index of every subtable *)
+Theorem c17_indexmap_inner_bits_cover : forall p inner_maps,
+  1 <= inner_bit_count p inner_maps
+  /\ forall mx imap k, In (mx, imap) (combine (ip_max_inners p) inner_maps) -> mx <> 0 ->
+       index_of mx imap 0 = Some k -> k < 2 ^ inner_bit_count p inner_maps.
+Proof. exact inner_bit_count_covers. Qed.
+(* ... hence for ALL entries: an entry whose old inner index is at most the recorded maximum of its subtable
+   (new inner index = rank in the ascending retained set) is read back unchanged *)
+Theorem c17_indexmap_entry_roundtrip : forall p inner_maps mx imap i i' o',
+  In (mx, imap) (combine (ip_max_inners p) inner_maps) ->
+  StronglySorted Z.lt imap -> (forall x, In x imap -> 0 <= x) -> In mx imap ->
+  0 <= i <= mx -> index_of i imap 0 = Some i' -> 0 <= o' ->
+  let ibc := inner_bit_count p inner_maps in
+  im_unpack ibc (im_pack ibc o' i') = (o', i').
+Proof. exact indexmap_entry_roundtrip. Qed.
+
 Print Assumptions c17_closure_contains_requested.
 Print Assumptions c17_closure_component_closed.
 Print Assumptions c17_closure_component_closed_partial.
@@ -157,3 +184,7 @@ Print Assumptions c17_subset_all_identity.
 Print Assumptions c17_closure_minimal.
 Print Assumptions c17_closure_roots_kept.
 Print Assumptions c17_subset_idempotent.
+Print Assumptions c17_indexmap_pack_roundtrip.
+Print Assumptions c17_indexmap_pack_fits_width.
+Print Assumptions c17_indexmap_inner_bits_cover.
+Print Assumptions c17_indexmap_entry_roundtrip.
